@@ -30,6 +30,9 @@ def check(ctx):
     ctx.sub(c12.clock_range_rule, 'C08.clock')
     ctx.sub(c13.schedules)                      # 'at each scheduled close': the schedules hold the documented instants and meet clock events
     ctx.sub(open_row_is_exchange_open)
+    from . import c18
+    ctx.sub(c18.shared_state)                   # "reproduces": no state shared between sessions / instances (class-level tables, module globals)
+    ctx.sub(c18.memoisation)
 
 
 def sizing_inputs(ctx):
